@@ -40,7 +40,10 @@ def run(ctx):
             rbody = re.sub(r':%s\b' % name, ':' + nn, body).replace('"%s"' % name, '"%s"' % nn) if name == 'x' else body
             rn = nn if name == 'x' else name
             if kind == 'set': a = lib.new_cfg(select=['(set "%s" %s %s)=r' % (rn, val, rbody)])
-            else: a = lib.new_cfg(set=['%s=%s' % (rn, val)], select=['%s=r' % rbody])
+            else:
+                a = lib.new_cfg(set=['%s=%s' % (rn, val)], select=['%s=r' % rbody])
+                # a macro of the same name lives in another namespace: defining it changes nothing for the variable
+                if rnd.random() < 0.3: a['set'] = rnd.choice([a['set'] + ['@%s=(+ .a 1)' % rn], ['@%s=.name' % rn] + a['set']])
             b = lib.new_cfg(select=['%s=r' % sub])
         elif kind in ('define', 'premacro'):
             mac = rnd.choice(MACROS); body = rnd.choice(MBODIES)
@@ -91,6 +94,8 @@ def run(ctx):
         a = impl[ca['id']]; b = impl[cb['id']]
         if a['result'] != 'ok' or b['result'] != 'ok':
             if a['result'] in ('panic', 'hang', 'abort'): violations.append(viol(ca, cb, 'run completes', a['result'], 'ok'))
+            elif b['result'] == 'ok' and a['result'].startswith('err') and model.get(ca['id'], {}).get('result') == 'ok':
+                violations.append(viol(ca, cb, 'the bound form is a valid configuration whenever the substituted form is (and the model accepts it)', a['result'] + ' ' + a.get('msg', '')[:200], 'ok'))
             continue
         checked += 1
         ra = [json.loads(r).get('r', '<nothing>') for r in rows(a['stdout'])]; rb = [json.loads(r).get('r', '<nothing>') for r in rows(b['stdout'])]
